@@ -16,6 +16,7 @@ import (
 	"io"
 	"net/http"
 	"net/url"
+	"sort"
 	"strconv"
 	"strings"
 	"sync"
@@ -87,6 +88,89 @@ var Menu = []string{"", "empty", "truncated-half", "truncated-line1", "truncated
 	// framing of a valid answer: no Content-Length (chunked / streamed / close-delimited), delivered whole or a byte at a time
 	"unknown-length", "unknown-length-bytewise", "unknown-length-empty"}
 
+// MenuFor is the answer menu for one flavour: the JSON-speaking ones get, in
+// addition, every structural 1-edit of the valid JSON answer (JSONEdits).
+func MenuFor(flavour string) []string {
+	m := append([]string{}, Menu...)
+	if strings.HasPrefix(flavour, "rekor") {
+		for i := 0; i < JSONEditSlots; i++ {
+			m = append(m, fmt.Sprintf("json-edit-%d", i))
+		}
+	}
+	return m
+}
+
+// JSONEditSlots bounds the number of structural edits addressed by the menu;
+// JSONEdits of the stub's answers yields fewer (checked by the caller).
+const JSONEditSlots = 120
+
+// JSONEdits returns every structural 1-edit of a JSON document, in a
+// deterministic order: each node replaced by null / removed from its parent;
+// arrays emptied, with null prepended, null appended, first element doubled;
+// strings emptied or replaced by a number; numbers replaced by 0, -1, a huge
+// value or a string. Still well-formed JSON - only the shape is hostile.
+func JSONEdits(doc []byte) [][]byte {
+	var root any
+	dec := json.NewDecoder(bytes.NewReader(doc))
+	dec.UseNumber()
+	if dec.Decode(&root) != nil {
+		return nil
+	}
+	var out [][]byte
+	emit := func() {
+		b, err := json.Marshal(root)
+		if err == nil {
+			out = append(out, b)
+		}
+	}
+	var walk func(get func() any, set func(any), del func())
+	walk = func(get func() any, set func(any), del func()) {
+		orig := get()
+		try := func(v any) { set(v); emit(); set(orig) }
+		try(nil)
+		if del != nil {
+			del()
+			emit()
+			set(orig)
+		}
+		switch v := orig.(type) {
+		case map[string]any:
+			try(map[string]any{})
+			keys := make([]string, 0, len(v))
+			for k := range v {
+				keys = append(keys, k)
+			}
+			sort.Strings(keys)
+			for _, k := range keys {
+				k := k
+				walk(func() any { return v[k] }, func(x any) { v[k] = x }, func() { delete(v, k) })
+			}
+		case []any:
+			try([]any{})
+			try(append([]any{nil}, v...))
+			try(append(append([]any{}, v...), nil))
+			if len(v) > 0 {
+				try(append([]any{v[0]}, v...))
+			}
+			for i := range v {
+				i := i
+				walk(func() any { return v[i] }, func(x any) { v[i] = x }, nil)
+			}
+		case string:
+			try("")
+			try(json.Number("7"))
+		case json.Number:
+			try(json.Number("0"))
+			try(json.Number("-1"))
+			try(json.Number("1e30"))
+			try(v.String())
+		}
+	}
+	holder := []any{root}
+	walk(func() any { return holder[0] }, func(x any) { holder[0] = x; root = x }, nil)
+	return out
+}
+
 var errReset = errors.New("verif: connection reset by peer")
 
 func (s *Server) valid(u *url.URL) (int, []byte) {
@@ -134,7 +218,16 @@ func (s *Server) valid(u *url.URL) (int, []byte) {
 		if r, ok := strings.CutPrefix(p, "tile/1/"); ok {
 			return tile(1, r)
 		}
-	case "rekor":
+	case "rekor", "rekor-inactive":
+		if p == "api/v1/log" && s.Flavour == "rekor-inactive" {
+			// The configured tree is an INACTIVE shard, listed after another one.
+			b, _ := json.Marshal(map[string]any{"signedTreeHead": "active", "treeID": "1000000001", "treeSize": 77,
+				"rootHash": "11", "inactiveShards": []any{
+					map[string]any{"signedTreeHead": "old", "treeID": "999", "treeSize": 3, "rootHash": "00"},
+					map[string]any{"signedTreeHead": string(head), "treeID": s.TreeID, "treeSize": size,
+						"rootHash": hex.EncodeToString(s.Branch.Root(min(size, len(s.Branch.Data))))}}})
+			return 200, b
+		}
 		if p == "api/v1/log" {
 			b, _ := json.Marshal(map[string]any{"signedTreeHead": string(head), "treeID": s.TreeID, "treeSize": size,
 				"rootHash": hex.EncodeToString(s.Branch.Root(min(size, len(s.Branch.Data)))), "inactiveShards": []any{
@@ -269,6 +362,13 @@ func (s *Server) RoundTrip(r *http.Request) (*http.Response, error) {
 		return &http.Response{StatusCode: code, Status: fmt.Sprintf("%d %s", code, http.StatusText(code)), Body: io.NopCloser(body), ContentLength: -1, TransferEncoding: []string{"chunked"}, Request: r, Header: http.Header{}, ProtoMajor: 1, ProtoMinor: 1}, nil
 	}
 	code, body := s.valid(r.URL)
+	if k, ok := strings.CutPrefix(ans, "json-edit-"); ok {
+		n, _ := strconv.Atoi(k)
+		if ed := JSONEdits(body); n < len(ed) {
+			return mk(code, ed[n])
+		}
+		return mk(code, body)
+	}
 	switch ans {
 	case "", "valid":
 		return mk(code, body)
